@@ -26,6 +26,7 @@ class Elem:
         elif kind == 'bool': self.value = value_scalar(scalar_bool(Bool(self.b)))
         elif kind == 'str':
             st.assume(z3.And(z3.UGE(self.c, 32), z3.ULE(self.c, 126))); self.value = str_value([self.c])
+        elif kind == 'estr': self.value = str_value([])
         elif kind == 'obj':
             keys = ['id']; vals = [value_scalar(scalar_int(Int(i, 'i64')))]
             if prop_kind == 'int': keys.append('p'); vals.append(value_scalar(scalar_int(Int(self.p, 'i64'))))
@@ -39,6 +40,7 @@ class Elem:
         if self.kind == 'int': return m.eval(self.x, model_completion=True).as_signed_long()
         if self.kind == 'bool': return z3.is_true(m.eval(self.b, model_completion=True))
         if self.kind == 'str': return chr(m.eval(self.c, model_completion=True).as_long())
+        if self.kind == 'estr': return ''
         d = {'id': self.i}
         if self.prop_kind == 'int': d['p'] = m.eval(self.p, model_completion=True).as_signed_long()
         elif self.prop_kind == 'nil': d['p'] = None
@@ -170,6 +172,16 @@ def ob_sort(chk, P, n_max):
                         used = set(); out_idx = []
                         for k_ in keys:
                             j = next(i for i, e in enumerate(elems) if e.key == k_ and i not in used); used.add(j); out_idx.append(j)
+                        if s2.env.get('unstable_sort'):
+                            # the filter sorts with an algorithm that does not promise stability; small slices happen to come out stable, so confirm on a long array
+                            big = [{'id': i, 'p': i % 3} for i in range(45)] if prop else None
+                            if prop:
+                                exp = sorted(big, key=lambda d: d['p'])
+                                ob.violation('sort/unstable-algorithm', "sort: 'p' uses an unstable sort: equal keys may be reordered on long arrays", {'array': '45 objects with keys i % 3'},
+                                             {'kind': 'template', 'parser': 'stdlib', 'template': replay_tpl("sort: 'p'"), 'globals': {'a': big}}, lambda r, e=exp: r.get('outcome') != 'ok' or r.get('output') != fmt_list(e))
+                            else:
+                                ob.inconclusive('sort without a property uses an unstable sort; instability is not observable on equal scalars')
+                            continue
                         for cond, why in sort_key_conds(elems, out_idx, prop):
                             m = ob.decide(ex, s2.conds, z3.Not(cond))
                             if m is not None:
@@ -310,12 +322,86 @@ def ob_simple_array_filters(chk, P, n_max):
         ob.absorb(ex)
 
 
+def ob_map_where_join(chk, P, n_max):
+    with chk.obligation('map-where-join/arrays', "map returns, in order, the property of exactly the elements that are objects having it (nil and false included, missing skipped); where returns, in order, exactly the objects "
+                        "whose property is truthy (no target) or equal to the target; join concatenates the elements' text with the separator between consecutive elements",
+                        {'arrays': f'0..{n_max} elements; map/where: objects whose property is any i64 / nil / false / missing (map also: integers); join: one-character strings, empty strings and nils, separator of 0..2 characters',
+                         'target': 'absent or any i64'}) as ob:
+        ex = Executor(P, models_with([])); ex.seed = chk.seed; ex.max_steps = 200000
+        t = z3.BitVec('target', 64)
+        def run_case(name, filt, args, elems, st, expect_fn, tpl_filter, extra_globals=None):
+            for s2, kind, val in run_filter(ex, P, filt, args, st, array_value(elems)):
+                ob.paths += 1; ob.reached()
+                if kind != 'ret' or val.variant != 'Ok':
+                    bad_cond = z3.BoolVal(True); got = f'{kind} {val}'
+                else:
+                    out = result_array(s2, val)
+                    got = [repr(x) for x in out] if out is not None else repr(val)
+                    bad_cond = expect_fn(got)
+                m = ob.decide(ex, s2.conds, bad_cond)
+                if m is not None:
+                    vals = [e.concrete(m) for e in elems]
+                    g = {'a': vals}; g.update(extra_globals(m) if extra_globals else {})
+                    exp = py_expect(name, vals, g, tpl_filter)
+                    ob.violation(f'{name}/wrong-result', f'{name} returns {got}: {py_json(vals)} with {g}', {'array': vals, 'expected': exp},
+                                 {'kind': 'template', 'parser': 'stdlib', 'template': replay_tpl(tpl_filter), 'globals': g}, lambda r, e=exp: r.get('outcome') != 'ok' or r.get('output') != e)
+        pool = ['obj:int', 'obj:nil', 'obj:missing', 'obj:false']
+        for n in range(n_max + 1):
+            for kinds in kinds_product(pool + ['int'], n):
+                st = State(); elems = mk_elems(st, kinds)
+                def prop_value(e):
+                    return value_scalar(scalar_int(Int(e.p, 'i64'))) if e.prop_kind == 'int' else VALUE_NIL if e.prop_kind == 'nil' else value_scalar(scalar_bool(Bool(False)))
+                want = [repr(prop_value(e)) for e in elems if e.kind == 'obj' and e.prop_kind != 'missing']
+                margs = Adt('MapArgs', None, [expr_stub(str_value('p'), 'property')], ['property'])
+                run_case('map', 'MapFilter', margs, elems, st.clone(), lambda got, want=want: z3.BoolVal(got != want), "map: 'p'")
+            for kinds in kinds_product(pool, n):
+                st = State(); elems = mk_elems(st, kinds)
+                wargs = Adt('WhereArgs', None, [expr_stub(str_value('p'), 'property'), NONE], ['property', 'target_value'])
+                want = [e.key for e in elems if e.prop_kind == 'int']
+                run_case('where', 'WhereFilter', wargs, elems, st.clone(), lambda got, want=want: z3.BoolVal(got != want), "where: 'p'")
+                wargs2 = Adt('WhereArgs', None, [expr_stub(str_value('p'), 'property'), Some(expr_stub(value_scalar(scalar_int(Int(t, 'i64'))), 'target'))], ['property', 'target_value'])
+                def expect_eq(got, elems=elems):
+                    # the result must be exactly the objects whose integer property equals the target: compare against every subset
+                    ints = [e for e in elems if e.prop_kind == 'int']
+                    alts = []
+                    for mask in itertools.product((False, True), repeat=len(ints)):
+                        sel = [e.key for e, mk_ in zip(ints, mask) if mk_]
+                        if got == sel: alts.append(z3.And(*[(e.p == t) if mk_ else (e.p != t) for e, mk_ in zip(ints, mask)]) if ints else z3.BoolVal(True))
+                    return z3.Not(z3.Or(*alts)) if alts else z3.BoolVal(True)
+                run_case('where-eq', 'WhereFilter', wargs2, elems, st.clone(), expect_eq, "where: 'p', t", lambda m: {'t': m.eval(t, model_completion=True).as_signed_long()})
+            for kinds in kinds_product(['str', 'nil', 'estr'], n):
+                for sep_n in range(3):
+                    st = State(); elems = mk_elems(st, kinds)
+                    sep = [z3.BitVec(f'sep{i}', 32) for i in range(sep_n)]
+                    for c in sep: st.assume(z3.And(z3.UGE(c, 32), z3.ULE(c, 126)))
+                    jargs = Adt('JoinArgs', None, [Some(expr_stub(str_value(sep), 'separator'))], ['separator'])
+                    want = []
+                    for i, e in enumerate(elems):
+                        if i: want += sep
+                        if e.kind == 'str': want.append(e.c)      # nil and the empty string contribute no characters, but their separators stay
+                    for s2, kind, val in run_filter(ex, P, 'JoinFilter', jargs, st, array_value(elems)):
+                        ob.paths += 1; ob.reached()
+                        from checks.C13 import result_string
+                        res = result_string(s2, val) if kind == 'ret' else None
+                        m = ob.decide(ex, s2.conds, z3.Not(eq_chars(res, want)) if res is not None else z3.BoolVal(True))
+                        if m is not None:
+                            vals = [e.concrete(m) for e in elems]; sv = ''.join(chr(m.eval(c, model_completion=True).as_long()) for c in sep)
+                            texts = [v or '' for v in vals]
+                            ob.violation('join/wrong-result', f'join returns {val}: {py_json(vals)} | join: {sv!r}', {'array': vals, 'separator': sv},
+                                         {'kind': 'template', 'parser': 'stdlib', 'template': "[{{ a | join: s }}]", 'globals': {'a': vals, 's': sv}}, lambda r, e='[' + sv.join(texts) + ']': r.get('outcome') != 'ok' or r.get('output') != e)
+            ob.sample({'len': n})
+        ob.absorb(ex)
+
+
 def py_expect(name, vals, g, tpl_filter):
     if name == 'compact':
         if "'p'" in tpl_filter: out = [v for v in vals if isinstance(v, dict) and v.get('p') is not None]
         else: out = [v for v in vals if v is not None]
     elif name == 'reverse': out = list(reversed(vals))
     elif name == 'concat': out = list(vals) + list(g.get('b', []))
+    elif name == 'map': out = [v['p'] for v in vals if isinstance(v, dict) and 'p' in v]
+    elif name == 'where': out = [v for v in vals if isinstance(v, dict) and v.get('p') not in (None, False)]
+    elif name == 'where-eq': out = [v for v in vals if isinstance(v, dict) and type(v.get('p')) is int and v.get('p') == g.get('t')]
     elif name in ('first', 'last'):
         return '[' + (render_of((vals[0] if name == 'first' else vals[-1])) if vals else '') + ']'
     return fmt_list(out)
@@ -329,3 +415,4 @@ def run(chk):
     ob_sort_natural(chk, P, n)
     ob_uniq(chk, P, n)
     ob_simple_array_filters(chk, P, 3 if quick else 4)
+    ob_map_where_join(chk, P, 3 if quick else 4)
